@@ -5,6 +5,7 @@ import (
 	"reflect"
 	"unsafe"
 
+	"github.com/goccy/go-json/internal/errors"
 	"github.com/goccy/go-json/internal/runtime"
 )
 
@@ -41,8 +42,15 @@ func (d *wrappedStringDecoder) DecodeStream(s *Stream, depth int64, p unsafe.Poi
 	}
 	b := make([]byte, len(bytes)+1)
 	copy(b, bytes)
-	if _, err := d.dec.Decode(&RuntimeContext{Buf: b}, 0, depth, p); err != nil {
+	end, err := d.dec.Decode(&RuntimeContext{Buf: b}, 0, depth, p)
+	if err != nil {
 		return err
+	}
+	if end != int64(len(bytes)) {
+		return errors.ErrSyntax(
+			fmt.Sprintf("invalid character '%c' after the value inside a string", b[end]),
+			s.totalOffset(),
+		)
 	}
 	return nil
 }
@@ -61,10 +69,17 @@ func (d *wrappedStringDecoder) Decode(ctx *RuntimeContext, cursor, depth int64, 
 	bytes = append(bytes, nul)
 	oldBuf := ctx.Buf
 	ctx.Buf = bytes
-	if _, err := d.dec.Decode(ctx, 0, depth, p); err != nil {
+	end, err := d.dec.Decode(ctx, 0, depth, p)
+	ctx.Buf = oldBuf
+	if err != nil {
 		return 0, err
 	}
-	ctx.Buf = oldBuf
+	if end != int64(len(bytes)-1) {
+		return 0, errors.ErrSyntax(
+			fmt.Sprintf("invalid character '%c' after the value inside a string", bytes[end]),
+			c,
+		)
+	}
 	return c, nil
 }
 
